@@ -51,3 +51,48 @@ func ExploreChoices(c *Ctx, bound int, run func(prefix []int) []vrt.Point) (int6
 	}
 	return execs, true
 }
+
+// BFSReplay is the explicit-state breadth-first search over histories of driver events. Live
+// objects cannot be cloned, so a successor is computed by replaying the (shortest) history that
+// reached a state on a fresh world plus one event. exec runs a complete history, checks the
+// oracle on it (reporting through the Ctx) and returns the canonical key of the state reached;
+// ok=false prunes the history (event not enabled there, or a violation was reported).
+// The visited set is keyed by the returned key. Subtrees are sharded over workers by first event.
+// Returns states, transitions and whether a fixpoint / the depth bound was reached without a cap.
+func BFSReplay[E any](c *Ctx, maxDepth int, events []E, shardFirst bool, exec func(hist []E) (key string, ok bool)) (int64, int64, bool) {
+	seen := map[string]bool{}
+	var states, trans int64
+	k0, ok := exec(nil)
+	if !ok {
+		return 0, 0, true
+	}
+	seen[k0] = true
+	states = 1
+	frontier := [][]E{nil}
+	for depth := 0; len(frontier) > 0 && (maxDepth < 0 || depth < maxDepth); depth++ {
+		var next [][]E
+		for _, h := range frontier {
+			for ei, e := range events {
+				if shardFirst && len(h) == 0 && !c.Mine(int64(ei)) {
+					continue
+				}
+				if c.Expired() {
+					return states, trans, false
+				}
+				nh := append(append([]E(nil), h...), e)
+				k, ok := exec(nh)
+				if !ok {
+					continue
+				}
+				trans++
+				if !seen[k] {
+					seen[k] = true
+					states++
+					next = append(next, nh)
+				}
+			}
+		}
+		frontier = next
+	}
+	return states, trans, len(frontier) == 0 || maxDepth >= 0
+}
